@@ -6,9 +6,13 @@ package c16
 
 import (
 	"crypto/elliptic"
+	"encoding/json"
 	"fmt"
 	"math/big"
 	"math/rand/v2"
+	"sort"
+	"strings"
+	"sync"
 
 	"github.com/consensys/gnark-crypto/ecc"
 	"github.com/consensys/gnark/frontend"
@@ -25,7 +29,9 @@ type emuCurveDesc struct {
 	lambda *big.Int // eigenvalue on GLV curves
 	capBit int      // bits representable by a scalar witness element
 	build  func(c *emuCase, withSink bool) (frontend.Circuit, frontend.Circuit, *sink, bool)
-	weight int // relative cost (for sampling in quick)
+	weight int    // relative cost (for sampling in quick)
+	pkg    string // gnark package of the gadget (violation signatures)
+	fam    string // counter prefix
 }
 
 func mkEmuDesc[B, S emulated.FieldParams](name string) *emuCurveDesc {
@@ -43,6 +49,8 @@ func mkEmuDesc[B, S emulated.FieldParams](name string) *emuCurveDesc {
 		lambda: pr.Eigenvalue,
 		capBit: int(fr.NbLimbs()) * int(fr.BitsPerLimb()),
 		build:  buildEmu[B, S],
+		pkg:    "sw_emulated",
+		fam:    "emu",
 	}
 	return d
 }
@@ -212,7 +220,7 @@ func (d *emuCurveDesc) genEmuCases(rng *rand.Rand, native *big.Int) []*emuCase {
 	ks := d.edgeScalars(rng)
 	var out []*emuCase
 	mk := func(op string, complete bool, class string, pts []wpt, sc []*big.Int, want wpt, inDomain bool) {
-		out = append(out, &emuCase{Curve: c.Name, Op: op, Complete: complete, Pts: pts, Ks: sc, Class: class, InDomain: inDomain, Want: want, Native: native})
+		out = append(out, &emuCase{Pkg: d.pkg, Curve: c.Name, Op: op, Complete: complete, Pts: pts, Ks: sc, Class: class, InDomain: inDomain, Want: want, Native: native})
 	}
 
 	// --- AddUnified: complete by documentation
@@ -234,7 +242,7 @@ func (d *emuCurveDesc) genEmuCases(rng *rand.Rand, native *big.Int) []*emuCase {
 	}
 	// --- AssertIsOnCurve
 	for _, p := range pts {
-		o := &emuCase{Curve: c.Name, Op: "AssertIsOnCurve", Pts: []wpt{p.p}, Class: p.name, InDomain: true, WantSat: true, Want: p.p, Native: native}
+		o := &emuCase{Pkg: d.pkg, Curve: c.Name, Op: "AssertIsOnCurve", Pts: []wpt{p.p}, Class: p.name, InDomain: true, WantSat: true, Want: p.p, Native: native}
 		out = append(out, o)
 	}
 	offs := []namedPt{
@@ -248,7 +256,7 @@ func (d *emuCurveDesc) genEmuCases(rng *rand.Rand, native *big.Int) []*emuCase {
 		if c.onCurve(p.p) {
 			continue
 		}
-		out = append(out, &emuCase{Curve: c.Name, Op: "AssertIsOnCurve", Pts: []wpt{p.p}, Class: "off-curve:" + p.name, InDomain: true, WantSat: false, Want: p.p, Native: native})
+		out = append(out, &emuCase{Pkg: d.pkg, Curve: c.Name, Op: "AssertIsOnCurve", Pts: []wpt{p.p}, Class: "off-curve:" + p.name, InDomain: true, WantSat: false, Want: p.p, Native: native})
 	}
 
 	// --- ScalarMul / ScalarMulBase
@@ -389,36 +397,60 @@ func (d *emuCurveDesc) genEmuCases(rng *rand.Rand, native *big.Int) []*emuCase {
 			mk("MultiScalarMulFold", complete, f.class, f.ps, []*big.Int{f.g}, want, complete || (!f.unsafe && !want.Inf))
 		}
 	}
+	if c.Name == "BN254" && d.pkg == "sw_emulated" {
+		// the EVM precompiles BN_ADD / BN_MUL are AddUnified / ScalarMul with
+		// complete arithmetic on BN254: every input is in their domain
+		n := len(out)
+		for _, cs := range out[:n] {
+			switch {
+			case cs.Op == "AddUnified":
+				w := *cs
+				w.Op, w.Pkg = "ECAdd", "evmprecompiles"
+				out = append(out, &w)
+			case cs.Op == "ScalarMul" && cs.Complete:
+				w := *cs
+				w.Op, w.Pkg = "ECMul", "evmprecompiles"
+				out = append(out, &w)
+			}
+		}
+	}
 	return out
 }
 
-// runEmu executes one case in gnark's test engine and returns the outcome.
-type emuOutcome struct {
-	sat     bool
-	correct bool
-	got     [2]*big.Int
-	err     string
-}
-
-func (d *emuCurveDesc) runEmu(c *emuCase) (emuOutcome, bool) {
-	circ, asg, sk, ok := d.build(c, true)
+// execEmu is the worker-side executor of the emulated family.
+func execEmu(raw json.RawMessage) outcome {
+	var c emuCase
+	if err := json.Unmarshal(raw, &c); err != nil {
+		return outcome{Err: "decode: " + err.Error()}
+	}
+	var d *emuCurveDesc
+	for _, x := range emuCurves() {
+		if x.c.Name == c.Curve {
+			d = x
+		}
+	}
+	if d == nil {
+		return outcome{Err: "unknown curve"}
+	}
+	circ, asg, sk, ok := d.build(&c, true)
 	if !ok {
-		return emuOutcome{}, false
+		return outcome{Err: "scalar-not-representable"}
 	}
 	err := test.IsSolved(circ, asg, c.Native)
-	o := emuOutcome{sat: err == nil}
+	o := outcome{Sat: err == nil}
 	if err != nil {
-		o.err = firstLine(err.Error())
-		return o, true
+		o.Err = firstLine(err.Error())
+		return o
 	}
 	if len(sk.got) != 1 {
-		o.err = fmt.Sprintf("capture point reached %d times", len(sk.got))
-		return o, true
+		o.Sat = false
+		o.Err = fmt.Sprintf("harness: capture point reached %d times", len(sk.got))
+		return o
 	}
-	o.got = sk.got[0]
+	o.Got = []string{sk.got[0][0].String(), sk.got[0][1].String()}
 	wx, wy := c.Want.xy()
-	o.correct = o.got[0].Cmp(wx) == 0 && o.got[1].Cmp(wy) == 0
-	return o, true
+	o.Correct = sk.got[0][0].Cmp(wx) == 0 && sk.got[0][1].Cmp(wy) == 0
+	return o
 }
 
 func firstLine(s string) string {
@@ -428,8 +460,8 @@ func firstLine(s string) string {
 			break
 		}
 	}
-	if len(s) > 160 {
-		s = s[:160]
+	if len(s) > 200 {
+		s = s[:200]
 	}
 	return s
 }
@@ -441,34 +473,191 @@ func glvKind(d *emuCurveDesc) string {
 	return "fakeglv"
 }
 
-// judgeEmu turns an outcome into counters / violations. recheck re-executes the
-// case (sequentially, by the caller's arrangement) before a violation is filed.
-func judgeEmu(r *vcore.Run, d *emuCurveDesc, c *emuCase, o emuOutcome, recheck func() emuOutcome) {
-	fam := "sw_emulated." + c.Op
+// poolTrouble handles the outcomes that are about the run, not about gnark.
+// It returns true when the case is settled.
+func poolTrouble(r *vcore.Run, fam string, o outcome, rep map[string]any, sigBase string) bool {
+	switch {
+	case o.Crash != "":
+		rep["crash"] = o.Crash
+		r.Count(fam+".worker-crash", 1)
+		r.Violation(sigBase+"/worker-process-died", "the worker process died while executing the case: "+firstLine(o.Crash), rep)
+		return true
+	case o.Hang:
+		rep["hang"] = o.Err
+		r.Count(fam+".HANG", 1)
+		r.Violation(sigBase+"/does-not-terminate", "the case did not finish within the watchdog ("+o.Err+")", rep)
+		return true
+	case o.Panic != "":
+		// a panic escaping test.IsSolved (it recovers panics of Define itself)
+		rep["panic"] = o.Panic
+		r.Count(fam+".panic", 1)
+		r.Violation(sigBase+"/panic", "panic outside the engine's recover: "+firstLine(o.Panic), rep)
+		return true
+	case strings.HasPrefix(o.Err, "harness:") || strings.HasPrefix(o.Err, "worker:") || strings.HasPrefix(o.Err, "decode:"):
+		r.Inconclusive(fam + ":" + firstLine(o.Err))
+		return true
+	}
+	return false
+}
+
+// scalarClass names the residue class of a scalar (coarse, stable: used in
+// violation signatures so that one root cause gives one signature).
+func (d *emuCurveDesc) scalarClass(k *big.Int) string {
+	r := d.c.R
+	km := new(big.Int).Mod(k, r)
+	pre := ""
+	if k.Cmp(r) >= 0 {
+		pre = "unreduced:"
+	}
+	neg := new(big.Int).Sub(r, km)
+	switch {
+	case km.Sign() == 0:
+		return pre + "s≡0"
+	case km.Cmp(bi(1)) == 0:
+		return pre + "s≡1"
+	case neg.Cmp(bi(1)) == 0:
+		return pre + "s≡-1"
+	case km.Cmp(bi(3)) == 0 || neg.Cmp(bi(3)) == 0:
+		return pre + "s≡±3"
+	case km.Cmp(bi(16)) <= 0:
+		return pre + "s≡small"
+	case neg.Cmp(bi(16)) <= 0:
+		return pre + "s≡-small"
+	}
+	if d.glv {
+		l := d.lambda
+		l2 := new(big.Int).Mod(new(big.Int).Mul(l, l), r)
+		us := []*big.Int{bi(0), bi(1), bi(-1), l, new(big.Int).Neg(l), l2, new(big.Int).Neg(l2)}
+		for _, a := range us {
+			for _, b := range us {
+				t := new(big.Int).Add(a, b)
+				if t.Mod(t, r).Cmp(km) == 0 {
+					return pre + "s≡unit-combination(±1,±λ,±λ²)"
+				}
+			}
+		}
+	}
+	return pre + "s-generic"
+}
+
+func (d *emuCurveDesc) pointClass(p wpt) string {
+	if p.Inf {
+		return "P=inf"
+	}
+	c := d.c
+	G := c.G()
+	acc := winf()
+	for k := 1; k <= 16; k++ {
+		acc = c.add(acc, G)
+		if c.eq(p, acc) || c.eq(p, c.neg(acc)) {
+			switch k {
+			case 1:
+				return "P=±G"
+			case 8:
+				return "P=±8G"
+			case 16:
+				return "P=±16G"
+			}
+			return "P=small-multiple-of-G"
+		}
+	}
+	return "P-generic"
+}
+
+func (d *emuCurveDesc) inputClass(c *emuCase) (scalars []string, all string) {
+	set := map[string]bool{}
+	for _, k := range c.Ks {
+		set[d.scalarClass(k)] = true
+	}
+	for s := range set {
+		scalars = append(scalars, s)
+	}
+	sort.Strings(scalars)
+	pset := map[string]bool{}
+	for _, p := range c.Pts {
+		pset[d.pointClass(p)] = true
+	}
+	var ps []string
+	for s := range pset {
+		ps = append(ps, s)
+	}
+	sort.Strings(ps)
+	return scalars, strings.Join(scalars, "+") + "/" + strings.Join(ps, "+")
+}
+
+// emuJudge collects the verdicts of the emulated family. Failures of the
+// composite methods (JointScalarMulBase, MultiScalarMul) that are explained by a
+// failure of the single ScalarMul they are built from (same curve kind, same
+// mode, same scalar class) are folded into that finding at the end.
+type emuJudge struct {
+	r        *vcore.Run
+	mu       sync.Mutex
+	rootFail map[string]bool // glvKind|mode|scalarClass of failed single scalar muls
+	pending  []func(root map[string]bool)
+}
+
+func newEmuJudge(r *vcore.Run) *emuJudge {
+	return &emuJudge{r: r, rootFail: map[string]bool{}}
+}
+
+func (j *emuJudge) finish() {
+	j.mu.Lock()
+	defer j.mu.Unlock()
+	for _, f := range j.pending {
+		f(j.rootFail)
+	}
+	j.pending = nil
+}
+
+// usesSingleMul reports whether the composite method is built from the plain
+// ScalarMul code path for this curve kind and mode (read off point.go).
+func usesSingleMul(d *emuCurveDesc, c *emuCase) bool {
+	switch c.Op {
+	case "JointScalarMulBase":
+		return !d.glv || c.Complete
+	case "MultiScalarMul":
+		return !d.glv || c.Complete || len(c.Ks)%2 == 1
+	case "MultiScalarMulFold":
+		return true
+	}
+	return false
+}
+
+// judge turns an outcome into counters / violations.
+func (j *emuJudge) judge(d *emuCurveDesc, c *emuCase, o outcome) {
+	r := j.r
+	fam := c.Pkg + "." + c.Op
+	f := d.fam
 	mode := "incomplete"
 	if c.Complete {
 		mode = "complete"
 	}
-	r.Eval("emu|"+c.key(), true)
-	r.Count("emu.cases."+c.Curve, 1)
-	r.Count("emu.op."+c.Op+"."+mode, 1)
+	r.Eval(f+"|"+c.key(), true)
+	r.Count(f+".cases."+c.Curve, 1)
+	r.Count(f+".op."+c.Op+"."+mode, 1)
+	if c.Native.Cmp(nativeBN254) != 0 {
+		r.Count(f+".cases.over-other-native-field", 1)
+	}
+	if o.Err == "scalar-not-representable" {
+		r.Inconclusive(f + ":scalar-not-representable")
+		return
+	}
+	if poolTrouble(r, f, o, c.replay(), fmt.Sprintf("%s/%s/%s", fam, glvKind(d), mode)) {
+		return
+	}
 	if c.Op == "AssertIsOnCurve" {
 		switch {
-		case o.sat == c.WantSat:
+		case o.Sat == c.WantSat:
 			if c.WantSat {
-				r.Count("emu.oncurve.accepted", 1)
+				r.Count(f+".oncurve.accepted", 1)
 			} else {
-				r.Count("emu.oncurve.rejected-off-curve", 1)
+				r.Count(f+".oncurve.rejected-off-curve", 1)
 			}
 		default:
-			if o2 := recheck(); o2.sat == c.WantSat {
-				r.Inconclusive("emu:not-reproduced-sequentially")
-				return
-			}
-			sig := fmt.Sprintf("%s/%s/%s", fam, map[bool]string{true: "rejects-valid-point", false: "ACCEPTS-off-curve-point"}[c.WantSat], c.Class)
+			sig := fmt.Sprintf("%s/%s", fam, map[bool]string{true: "rejects-valid-point", false: "ACCEPTS-off-curve-point"}[c.WantSat])
 			rep := c.replay()
-			rep["error"] = o.err
-			r.Violation(sig, fmt.Sprintf("%s on %s: satisfiable=%v, oracle=%v (%s)", fam, c.Curve, o.sat, c.WantSat, c.Class), rep)
+			rep["error"] = o.Err
+			r.Violation(sig, fmt.Sprintf("%s on %s: satisfiable=%v, oracle=%v (%s)", fam, c.Curve, o.Sat, c.WantSat, c.Class), rep)
 		}
 		return
 	}
@@ -476,39 +665,67 @@ func judgeEmu(r *vcore.Run, d *emuCurveDesc, c *emuCase, o emuOutcome, recheck f
 	if !c.InDomain {
 		dom = "outside-domain"
 	}
+	scs, icls := d.inputClass(c)
 	switch {
-	case o.sat && o.correct:
-		r.Count("emu."+dom+".correct", 1)
+	case o.Sat && o.Correct:
+		r.Count(f+"."+dom+".correct", 1)
 		if !c.InDomain {
-			r.Count("emu.outside-domain.correct."+c.Op, 1)
+			r.Count(f+".outside-domain.correct."+c.Op, 1)
 		}
 		if c.Want.Inf {
-			r.Count("emu.result-at-infinity.correct", 1)
+			r.Count(f+".result-at-infinity.correct", 1)
 		}
-		r.SampleClass("emu/"+c.Op+"/"+mode+"/"+dom, map[string]any{"curve": c.Curve, "class": c.Class, "result": c.Want.String(), "outcome": "satisfiable, equals oracle"})
-	case !o.sat && !c.InDomain:
-		r.Count("emu.outside-domain.unsatisfiable", 1)
-		r.Count("emu.outside-domain.unsatisfiable."+c.Op, 1)
-		r.SampleClass("emu/"+c.Op+"/"+mode+"/outside-domain-unsat", map[string]any{"curve": c.Curve, "class": c.Class, "outcome": "unsatisfiable: " + o.err})
+		r.SampleClass(f+"/"+c.Op+"/"+mode+"/"+dom, map[string]any{"curve": c.Curve, "class": c.Class, "result": c.Want.String(), "outcome": "satisfiable, equals oracle"})
+	case !o.Sat && !c.InDomain:
+		r.Count(f+".outside-domain.unsatisfiable", 1)
+		r.Count(f+".outside-domain.unsatisfiable."+c.Op, 1)
+		r.SampleClass(f+"/"+c.Op+"/"+mode+"/outside-domain-unsat", map[string]any{"curve": c.Curve, "class": c.Class, "outcome": "unsatisfiable: " + o.Err})
+	case o.Sat && !c.InDomain:
+		// the method's documentation puts this input outside its contract (⚠️
+		// preconditions of the incomplete formulas): the value is undefined by
+		// design; observed and counted, never a verdict
+		r.Count(f+".outside-domain.wrong-value(documented-precondition-violated)", 1)
+		r.Count(f+".outside-domain.wrong-value."+c.Op, 1)
+		r.SampleClass(f+"/"+c.Op+"/"+mode+"/outside-domain-wrong-value", map[string]any{"curve": c.Curve, "class": c.Class, "oracle": c.Want.String(), "gadget": o.Got,
+			"outcome": "satisfiable with a value different from the group law; the input violates a documented precondition"})
+	case o.Sat:
+		rep := c.replay()
+		rep["gadget_result"] = o.Got
+		sig := fmt.Sprintf("%s/%s/%s/WRONG-RESULT/%s", fam, glvKind(d), mode, icls)
+		r.Count(f+".WRONG-RESULT", 1)
+		r.Violation(sig, fmt.Sprintf("%s on %s (%s) is satisfiable with a result different from the group law: %s", fam, c.Curve, mode, c.Class), rep)
 	default:
-		o2 := recheck()
-		if o2.sat != o.sat || o2.correct != o.correct {
-			r.Inconclusive("emu:not-reproduced-sequentially")
+		rep := c.replay()
+		rep["error"] = o.Err
+		sig := fmt.Sprintf("%s/%s/%s/unsatisfiable-in-documented-domain/%s", fam, glvKind(d), mode, icls)
+		detail := fmt.Sprintf("%s on %s (%s) rejects an input of its documented domain: %s: %s", fam, c.Curve, mode, c.Class, o.Err)
+		r.Count(f+".UNSAT-IN-DOMAIN", 1)
+		j.mu.Lock()
+		defer j.mu.Unlock()
+		if c.Op == "ScalarMul" || c.Op == "ScalarMulBase" {
+			for _, sc := range scs {
+				j.rootFail[glvKind(d)+"|"+mode+"|"+sc] = true
+			}
+			r.Violation(sig, detail, rep)
 			return
 		}
-		rep := c.replay()
-		rep["error"] = o.err
-		if o.sat {
-			rep["gadget_result"] = []string{o.got[0].String(), o.got[1].String()}
-			sig := fmt.Sprintf("%s/%s/%s/WRONG-RESULT-%s/%s", fam, glvKind(d), mode, dom, c.Class)
-			r.Count("emu.WRONG-RESULT", 1)
-			r.Violation(sig, fmt.Sprintf("%s on %s (%s, %s) is satisfiable with a result different from the group law: %s", fam, c.Curve, mode, dom, c.Class), rep)
-		} else {
-			sig := fmt.Sprintf("%s/%s/%s/unsatisfiable-in-documented-domain/%s", fam, glvKind(d), mode, c.Class)
-			r.Count("emu.UNSAT-IN-DOMAIN", 1)
-			r.Violation(sig, fmt.Sprintf("%s on %s (%s) rejects an input of its documented domain: %s: %s", fam, c.Curve, mode, c.Class, o.err), rep)
-		}
+		single := usesSingleMul(d, c)
+		j.pending = append(j.pending, func(root map[string]bool) {
+			if single {
+				for _, sc := range scs {
+					if root[glvKind(d)+"|"+mode+"|"+sc] {
+						r.Count(f+".UNSAT-IN-DOMAIN.composite-explained-by-single-ScalarMul-failure", 1)
+						r.SampleClass(f+"/composite-failure-folded/"+c.Op+"/"+mode, map[string]any{"curve": c.Curve, "class": c.Class, "error": o.Err,
+							"explained_by": "ScalarMul fails for " + sc + " in the same mode (reported as its own violation)"})
+						return
+					}
+				}
+			}
+			r.Violation(sig, detail, rep)
+		})
 	}
 }
 
 var nativeBN254 = ecc.BN254.ScalarField()
+
+func init() { executors["emu"] = execEmu }
